@@ -15,9 +15,9 @@ func vrtRing15() (*buffer, int64, bool) {
 		panic(err)
 	}
 	bf.buf = vrtArrayBytes(int(bf.size))
-	// fill states: empty, one byte, one free byte, full; consumer cursor at 0 or just before the wrap
+	// fill states: empty, one byte, one free byte, full, two free bytes; consumer cursor at 0 or just before the wrap (there with a stale producer-side cache of it)
 	var avail int64
-	switch vrtChoice("fill", 4) {
+	switch vrtChoice("fill", 5) {
 	case 0:
 		avail = 0
 	case 1:
@@ -26,6 +26,8 @@ func vrtRing15() (*buffer, int64, bool) {
 		avail = bf.size - 1
 	case 3:
 		avail = bf.size
+	case 4:
+		avail = bf.size - 2 // a write of 2 fits exactly
 	}
 	c := int64(0)
 	if vrtChoice("pos", 2) == 1 {
@@ -34,6 +36,9 @@ func vrtRing15() (*buffer, int64, bool) {
 	bf.cseq.set(c)
 	bf.pseq.set(c + avail)
 	bf.pseq.gate = c
+	if c != 0 {
+		bf.pseq.gate = c - 7 // the producer's cached consumer position is stale
+	}
 	return bf, avail, c != 0
 }
 
